@@ -14,7 +14,7 @@ from __future__ import annotations
 import itertools
 
 from .. import qast as Q
-from ..common import X, Y, A, L, leaves_xy, XY_REP, rich_world, VARS3, eval_rows, is_exc, root_kind
+from ..common import X, Y, Z, A, L, leaves_xy, XY_REP, rich_world, VARS3, eval_rows, is_exc, root_kind
 from ..isolate import run_isolated
 from ..space import trees_by_depth
 from ..worlds import build_world, Inst
@@ -53,8 +53,21 @@ def bounds(tier):
             + (" + depth-2 over 4 leaves" if tier == "thorough" else "")}
 
 
+def nest3_bases(tier):
+    from .c02 import NEST3_LEAVES
+    l3 = NEST3_LEAVES[:5] if tier == "quick" else NEST3_LEAVES
+    for a, b, c in itertools.permutations(l3, 3):
+        for shape in (("and", a, ("or", b, c)), ("or", a, ("and", b, c))):
+            if len(Q.cond_vars(shape)) == 3:
+                yield shape
+
+
 def cases(tier, inst):
     k = 3 if tier == "quick" else 4
+    # three variables: the orbit contains every declaration order (operator caches are keyed by variable ids)
+    for i, t in enumerate(nest3_bases(tier)):
+        if tier == "thorough" or i % 3 == 0:
+            yield (t, 3)
     for t in trees_by_depth(leaves_xy(), 1):
         yield (t, k)
     for a, b, c in itertools.product(XY_REP, repeat=3):
@@ -124,8 +137,10 @@ def neighbours(m):
     if len(conds) > 1:
         yield ((("andf",) + conds,), vars_, sel, perm)
         yield (tuple(reversed(conds)), vars_, sel, perm)
-    yield (conds, tuple(reversed(vars_)), sel, perm)          # declaration order
-    yield (conds, vars_, tuple(reversed(sel)), perm)          # selection order
+    for i in range(len(vars_) - 1):                           # declaration order (adjacent transpositions)
+        yield (conds, vars_[:i] + (vars_[i + 1], vars_[i]) + vars_[i + 2:], sel, perm)
+    for i in range(len(sel) - 1):                             # selection order
+        yield (conds, vars_, sel[:i] + (sel[i + 1], sel[i]) + sel[i + 2:], perm)
     for p in (0, 1, 2):
         if p != perm:
             yield (conds, vars_, sel, p)                      # permuted domains
@@ -147,7 +162,10 @@ def orbit(base, k):
 
 def run_case(case, inst):
     tree, k = case
-    base = ((tree,), VXY, (X, Y), 0)
+    three = "z" in Q.cond_vars(tree)
+    vars0 = VARS3 if three else VXY
+    sel0 = (X, Y, Z) if three else (X, Y)
+    base = ((tree,), vars0, sel0, 0)
     members = orbit(base, k)
 
     def evaluate(m):
@@ -170,9 +188,11 @@ def run_case(case, inst):
             if exp is None and qw is not None:
                 q, world = qw
                 ref = Q.Ref(world, inst)
-                sols = ref.solutions(("Q", "an", "setof", (X, Y), (tree,), VXY))
-                exp = frozenset(frozenset((n, Q.norm(env[n])) for n in ("x", "y")) for env in sols)
-                total = len(ref.domain(VXY[0])) * len(ref.domain(VXY[1]))
+                sols = ref.solutions(("Q", "an", "setof", sel0, (tree,), vars0))
+                exp = frozenset(frozenset((n, Q.norm(env[n])) for n in [v[0] for v in vars0]) for env in sols)
+                total = 1
+                for v in vars0:
+                    total *= len(ref.domain(v))
         return results, exp, total
 
     results, exp, total = run_isolated(body)
@@ -197,7 +217,9 @@ def run_case(case, inst):
 
 def describe(case, inst):
     tree, k = case
-    return (Q.up_world(RICH, inst) + "\nbase: " + Q.up_query(("Q", "an", "setof", (X, Y), (tree,), VXY), inst)
+    three = "z" in Q.cond_vars(tree)
+    return (Q.up_world(RICH, inst) + "\nbase: " + Q.up_query(("Q", "an", "setof", (X, Y, Z) if three else (X, Y), (tree,),
+                                                              VARS3 if three else VXY), inst)
             + f"\n# every query reachable from the base by <= {k} rewrites (swap operands, re-associate, and_()/or_() form, "
               "several conditions, mirror a comparison, contains<->in_, declaration order, selection order, domain "
               "permutation) must return the same set of (x, y) assignments")
